@@ -34,7 +34,14 @@ def main():
         if np.max(np.real(np.linalg.eigvals(A))) > 0.8:
             continue
         x0 = np.array([rng.uniform(0, 5) for _ in names])
-        M = Model(species=names, reactions=rxs, initial_condition_dict=dict(zip(names, x0)))
+        # an unused pair of species listed FIRST and staying at exactly zero (an inducer that is never added), and the safe interface: the rate
+        # equations of the other species do not depend on them
+        inert = rng.random() < 0.5
+        safe = rng.random() < 0.5
+        ic = dict(zip(names, x0))
+        if inert:
+            ic.update(I_=0.0, W_=0.0)
+        M = Model(species=(['I_', 'W_'] if inert else []) + names, reactions=rxs + ([(['I_'], ['W_'], 'massaction', {'k': 1.0})] if inert else []), initial_condition_dict=ic)
         T = np.linspace(0, 5, 26) if rng.random() < 0.5 else np.array([0.0] + sorted(rng.uniform(0, 5) for _ in range(8)))
         reuse = it % 3 == 2
         if reuse:      # one interface object reused for several deterministic simulations (prepared again each time)
@@ -43,14 +50,14 @@ def main():
                 py_simulate_model(T, Interface=itf, stochastic=False, return_dataframe=False)
             res = py_simulate_model(T, Interface=itf, stochastic=False, return_dataframe=False).py_get_result()
         else:
-            res = py_simulate_model(T, Model=M, stochastic=False, return_dataframe=False).py_get_result()
+            res = py_simulate_model(T, Model=M, stochastic=False, safe=safe, return_dataframe=False).py_get_result()
         idx = M.get_species2index()
         n += 1
         for m, t in enumerate(T):
             want = expm(A * t) @ x0
             got = np.array([res[m, idx[s]] for s in names])
             if not np.allclose(got, want, rtol=1e-5, atol=1e-6):
-                return dict(reproduced=True, call='deterministic simulation%s of %r from %r at t=%r' % (' (interface reused)' if reuse else '', rxs, x0.tolist(), float(t)), observed=got.tolist(), expected=want.tolist())
+                return dict(reproduced=True, call='deterministic simulation%s%s%s of %r from %r at t=%r' % (' (interface reused)' if reuse else '', ' (safe=True)' if safe and not reuse else '', ' (two unused species at zero listed first)' if inert else '', rxs, x0.tolist(), float(t)), observed=got.tolist(), expected=want.tolist())
     return dict(reproduced=False, evaluations=n)
 
 
